@@ -233,7 +233,8 @@ func c05Eval(cs c05Case, seen func(string)) (string, string) {
 	if cs.Shape >= c05FirstSafeShape {
 		// fmt sees the bare container (Safe() prints like its operand under fmt, C14) with bare leaves;
 		// a leaf that is itself Unsafe(...) is skipped: inside Safe() the outermost wrapper decides (C06)
-		if strings.HasPrefix(la.Name, "Unsafe(") || strings.HasPrefix(lb.Name, "Unsafe(") || la.Name == "SafeFormatter" || lb.Name == "SafeFormatter" {
+		// (a leaf that is itself Unsafe(...) is public too: inside a value declared safe as a whole the outermost declaration decides)
+		if la.Name == "SafeFormatter" || lb.Name == "SafeFormatter" {
 			return "", ""
 		}
 		switch cs.Shape {
